@@ -40,6 +40,7 @@ type FuncContract struct {
 	File      string
 	Requires  []Clause
 	Ensures   []Clause
+	Function  bool
 	Modifies  []Expr
 	ModSrc    []string
 	HasMod    bool
@@ -369,6 +370,10 @@ func (C *Contracts) parseFile(pkg, file, src string) {
 					curF.NoSafety = true
 				case "pure":
 					curF.Pure = true
+				case "function":
+					// the results are a mathematical function of the (value-typed) arguments: assumed at every call,
+					// justified by the structural scan structural:function:<key>
+					curF.Function = true
 				case "nooverflow":
 					curF.NoOverflow = true
 				case "nilrecv":
